@@ -31,7 +31,7 @@ RULE = (
     "canonicalised by the resulting string (deduplicated across seeds and scripts by a crc32 partition); every state "
     "is executed through TRS(s), trs_to_dict(s), Tract('x', trs=s), TRS(TRS(s).trs) with the cache on and off. "
     "Constructor side: product of twp, rge in {0,1,9,10,99,100,154,999}, sec in {0,1,9,10,36,99}, n/s, e/w x 7 encodings "
-    "x 3 default sources x 4 entry points, plus placeholder/garbage components. Non-trivial = every distinct string / tuple."
+    "x 3 default sources (+ ocr_scrub on) x 4 entry points, plus placeholder/garbage components. Non-trivial = every distinct string / tuple."
 )
 ASSUMPTIONS = [
     "strings further than edit distance 2 from a seed are not explored",
@@ -210,7 +210,7 @@ def encodings(twp, ns, rge, ew, sec):
     ]
 
 
-def construct(entry, a, b, c, dn, de, source):
+def construct(entry, a, b, c, dn, de, source, ocr=False):
     """Run one constructor entry point with defaults given by `source`."""
     TRS, Tract, MC = _p.TRS, _p.Tract, _p.MasterConfig
     kw = {}
@@ -218,6 +218,12 @@ def construct(entry, a, b, c, dn, de, source):
     try:
         if source == 'kwarg':
             kw = {'default_ns': dn, 'default_ew': de}
+            if ocr:
+                # clean digits and direction letters contain nothing for the OCR scrubber to repair: same result expected
+                if entry == 'Tract.from_twprgesec':
+                    kw['config'] = 'ocr_scrub'
+                else:
+                    kw['ocr_scrub'] = True
         elif source == 'master':
             if dn is not None:
                 MC.default_ns = dn
@@ -254,18 +260,18 @@ def construct(entry, a, b, c, dn, de, source):
 ENTRIES = ('TRS.from_twprgesec', 'TRS.construct_trs', 'TRS.set_twprgesec', 'Tract.from_twprgesec')
 
 
-def judge_cons(acc, twp, ns, rge, ew, sec, enc, entry, source):
+def judge_cons(acc, twp, ns, rge, ew, sec, enc, entry, source, ocr=False):
     label, a, b, c, dn, de = enc
     if source != 'kwarg' and dn is None:
         # no defaults to convey through this source: identical to the kwarg case
         return
     case = {'kind': 'cons', 'args': [a, b, c, dn, de], 'entry': entry, 'source': source,
-            'want': [twp, ns, rge, ew, sec]}
-    key = f"c:{a!r},{b!r},{c!r},{dn},{de},{entry},{source}"
+            'want': [twp, ns, rge, ew, sec], 'ocr': ocr}
+    key = f"c:{a!r},{b!r},{c!r},{dn},{de},{entry},{source}{',ocr' if ocr else ''}"
     want = f"{twp}{ns}{rge}{ew}{sec:02d}"
     _, d = expect(want)
     try:
-        got = construct(entry, a, b, c, dn, de, source)
+        got = construct(entry, a, b, c, dn, de, source, ocr)
     except Exception as e:  # noqa
         acc.case(key, 'EXC')
         acc.violation('exception', f"C12:cons_exception:{key}", case, got=f"{type(e).__name__}: {e}")
@@ -383,6 +389,7 @@ def run_unit(unit, tier):
                 for entry in ENTRIES:
                     for source in ('kwarg', 'master', 'config'):
                         judge_cons(acc, twp, ns, rge, ew, sec, enc, entry, source)
+                    judge_cons(acc, twp, ns, rge, ew, sec, enc, entry, 'kwarg', ocr=True)
     else:
         for args, want, strict in SPECIALS:
             for entry in ENTRIES:
@@ -397,7 +404,7 @@ def replay(case):
     elif case['kind'] == 'cons':
         a, b, c, dn, de = case['args']
         twp, ns, rge, ew, sec = case['want']
-        judge_cons(acc, twp, ns, rge, ew, sec, ('replay', a, b, c, dn, de), case['entry'], case['source'])
+        judge_cons(acc, twp, ns, rge, ew, sec, ('replay', a, b, c, dn, de), case['entry'], case['source'], case.get('ocr', False))
     else:
         judge_special(acc, tuple(case['args']), case['want'], case.get('strict', True), case['entry'])
     return acc.viol
